@@ -88,6 +88,12 @@ Theorem C11_blank_line_only_from_blank_source : forall t w,
   Forall2 (fun line cs => wrap_chunks' cs w = [] -> nonblank line = []) (split_lines (t_text t)) (t_chunks t).
 Proof. exact blank_only_from_blank. Qed.
 
+(* conversely: a source line of whitespace only is ONE blank chunk for the splitter (no chunk if empty); it wraps
+   to nothing for every width, however long the run, and so renders as exactly one empty line *)
+Theorem C11_blank_run_wraps_to_nothing : forall c w,
+  all_blank c = true -> wrap_chunks' [c] w = [] /\ wrap_chunks' [] w = [].
+Proof. exact blank_run_wraps_to_nothing. Qed.
+
 (* each line break of the source starts a new line *)
 Theorem C11_every_source_line_starts_a_line : forall t w b,
   chunks_ok t = true -> render_text t w = ROk b ->
@@ -160,6 +166,12 @@ Example C11_example :
   render_text (simple_text [32]%N) 3 = ROk [].
 Proof. vm_compute. repeat split. Qed.
 
+(* the defect repaired by commit 628ec11 (F3), on the model of the old code: "abcd\nef" at width 4 *)
+Example C11_legacy_refuted :
+  legacy_render_text (simple_text [97; 98; 99; 100; 10; 101; 102]%N) 4 = [[97; 98; 99; 100]; []; [101; 102]]%N /\
+  render_text (simple_text [97; 98; 99; 100; 10; 101; 102]%N) 4 = ROk [[97; 98; 99; 100]; [101; 102]]%N.
+Proof. vm_compute. split; reflexivity. Qed.
+
 Print Assumptions C11_step_progress.
 Print Assumptions C11_fuel_enough.
 Print Assumptions C11_never_out_of_model.
@@ -169,6 +181,7 @@ Print Assumptions C11_conservation.
 Print Assumptions C11_line_structure.
 Print Assumptions C11_wrapped_lines_nonempty.
 Print Assumptions C11_blank_line_only_from_blank_source.
+Print Assumptions C11_blank_run_wraps_to_nothing.
 Print Assumptions C11_every_source_line_starts_a_line.
 Print Assumptions C11_greedy_inner.
 Print Assumptions C11_greedy.
